@@ -311,3 +311,11 @@ def hex_judge(run, obs_file):
     if not m:
         raise ToolError("HexJudge did not produce a verdict\n" + r["out"][-3000:])
     return json.loads(json.loads(m.group(1)))
+
+
+def obs_judge(run, module, marker, obs_file):
+    r = tlc(run, module, "INIT Init\nNEXT Next\nCHECK_DEADLOCK FALSE\n", workers=1, timeout=900, env={"OBS": obs_file})
+    m = re.search(r'^<<"%s", (".*")>>$' % marker, r["out"], re.M)
+    if not m:
+        raise ToolError(module + " did not produce a verdict\n" + r["out"][-3000:])
+    return json.loads(json.loads(m.group(1)))
